@@ -92,7 +92,7 @@ fn isconst_shapes<const K: u8, const WRAP: u8>() {
     assert!(r == expect, "U-isconst: constant iff built only from literals/undefined through arrays and objects without spreads");
     std::mem::forget(v);
 }
-macro_rules! isconst { ($($n:ident: $k:expr, $w:expr;)*) => { $(#[kani::proof] #[kani::unwind(4)] #[kani::stub(std::ptr::drop_in_place, no_drop)] #[kani::stub(core::ptr::drop_glue, no_glue)] fn $n() { isconst_shapes::<$k, $w>() })* } }
+macro_rules! isconst { ($($n:ident: $k:expr, $w:expr;)*) => { $(#[kani::proof] #[kani::unwind(3)] #[kani::stub(std::ptr::drop_in_place, no_drop)] #[kani::stub(core::ptr::drop_glue, no_glue)] fn $n() { isconst_shapes::<$k, $w>() })* } }
 isconst! {
     isconst_k0_w0: 0, 0; isconst_k1_w0: 1, 0; isconst_k2_w0: 2, 0; isconst_k3_w0: 3, 0; isconst_k4_w0: 4, 0; isconst_k5_w0: 5, 0; isconst_k6_w0: 6, 0;
     isconst_k0_w1: 0, 1; isconst_k1_w1: 1, 1; isconst_k3_w1: 3, 1; isconst_k5_w1: 5, 1;
